@@ -63,6 +63,7 @@
 static volatile uint64_t fake_now = 1000;
 static volatile int fake_on;
 static volatile int clobber_xmm;
+static __thread unsigned int csr_in = 0x1f80, csr_out;
 
 int clock_gettime(clockid_t id, struct timespec *ts)
 {
@@ -73,6 +74,13 @@ int clock_gettime(clockid_t id, struct timespec *ts)
 	ts->tv_sec = fake_now / 1000000000ULL;
 	ts->tv_nsec = fake_now % 1000000000ULL;
 	errno = 4242; /* something inside the hook disturbs errno */
+	if (clobber_xmm) { /* ... the SSE control/status register: round toward zero, then an inexact operation */
+		unsigned int csr = 0x5f80;
+		volatile double one = 1.0, three = 3.0, q;
+		asm volatile("ldmxcsr %0" ::"m"(csr));
+		q = one / three;
+		(void)q;
+	}
 	if (clobber_xmm) /* ... and, like libc code does, every xmm register */
 		asm volatile("pcmpeqd %%xmm0, %%xmm0\n pcmpeqd %%xmm1, %%xmm1\n pcmpeqd %%xmm2, %%xmm2\n"
 			     "pcmpeqd %%xmm3, %%xmm3\n pcmpeqd %%xmm4, %%xmm4\n pcmpeqd %%xmm5, %%xmm5\n"
@@ -282,12 +290,19 @@ static unsigned long vec_call(int level, const uint64_t *before, uint64_t *after
 	unsigned long r;
 	pack(before, b, nw);
 	memset(a, 0xee, sizeof(a));
-	if (level == 2)
-		r = call_with_zmm(b, a, fn, a1, a2, a3);
-	else if (level == 1)
-		r = call_with_ymm(b, a, fn, a1, a2, a3);
-	else
-		r = call_with_xmm(b, a, fn, a1, a2, a3);
+	{
+		unsigned int in = csr_in, out, def = 0x1f80;
+		asm volatile("ldmxcsr %0" ::"m"(in));
+		if (level == 2)
+			r = call_with_zmm(b, a, fn, a1, a2, a3);
+		else if (level == 1)
+			r = call_with_ymm(b, a, fn, a1, a2, a3);
+		else
+			r = call_with_xmm(b, a, fn, a1, a2, a3);
+		asm volatile("stmxcsr %0" : "=m"(out));
+		asm volatile("ldmxcsr %0" ::"m"(def));
+		csr_out = out;
+	}
 	unpack(a, after, nw);
 	return r;
 }
@@ -467,7 +482,12 @@ static void do_op(char *line)
 			strtok(line, " ");
 			k = atoi(strtok(NULL, " "));
 			s = strtoul(strtok(NULL, " "), NULL, 10);
-			read_words(strtok(NULL, "\n"), before, 128);
+			{
+				static __thread uint64_t w[129];
+				read_words(strtok(NULL, "\n"), w, 129);
+				memcpy(before, w, sizeof(before));
+				csr_in = (unsigned int)w[128];
+			}
 			memset(&regs, 0, sizeof(regs));
 			clobber_xmm = 1 + level;
 			errno = 77;
@@ -478,6 +498,7 @@ static void do_op(char *line)
 			printf("VE %d %d %d", level, r, e == 77);
 			for (i = 0; i < 128; i++)
 				printf(" %llx", (unsigned long long)after[i]);
+			printf(" %x", csr_out);
 		}
 		else if (!strcmp(op, "VR")) {
 			long rv[4] = { 42, 43, 0, 0 };
@@ -487,7 +508,13 @@ static void do_op(char *line)
 			strtok(line, " ");
 			s = strtoul(strtok(NULL, " "), NULL, 10) % NSLOT;
 			sl = SLOT(s);
-			read_words(strtok(NULL, "\n"), before, 128);
+			{
+				static __thread uint64_t w[129];
+				read_words(strtok(NULL, "\n"), w, 129);
+				memcpy(before, w, sizeof(before));
+				csr_in = (unsigned int)w[128];
+				csr_out = csr_in;
+			}
 			memcpy(after, before, sizeof(after));
 			while (mcount_return_fn && *sl == mcount_return_fn && mtd.idx > 0 && n < 100000) {
 				clobber_xmm = 1 + level;
@@ -503,6 +530,7 @@ static void do_op(char *line)
 			printf(" %d", ok);
 			for (i = 0; i < 128; i++)
 				printf(" %llx", (unsigned long long)after[i]);
+			printf(" %x", csr_out);
 		}
 		else if (!strcmp(op, "VEC")) {
 			static __thread uint64_t before[128], clobber[128], after[128];
